@@ -3,7 +3,11 @@
 package nutsdb
 
 import (
+	"encoding/hex"
 	"os"
+	fp "path/filepath"
+	"strconv"
+	"strings"
 	"time"
 )
 
@@ -43,3 +47,41 @@ func vCleanup() {
 	}
 	vDirs = nil
 }
+
+// ---- native side of the crash scenarios: the post-crash directory image predicted by the engine
+// (bytes evaluated under the solver model) is written to disk and the real Open runs on it ----
+
+func vArm()                  {}
+func vDisarm()               {}
+func vArmFault()             {}
+func vDisarmFault() bool     { return false }
+func vPowerLossMode(on bool) {}
+func vPowerFail(dir string)  {}
+func vImageSave(dir string)  {}
+
+func vImageLoad(dir string) {
+	os.MkdirAll(dir, 0755)
+	for _, o := range vPredicted {
+		switch {
+		case strings.HasPrefix(o.Tag, "imgdir:"):
+			os.MkdirAll(dir+strings.TrimPrefix(o.Tag, "imgdir:"), 0755)
+		case strings.HasPrefix(o.Tag, "img:"):
+			p := dir + strings.TrimPrefix(o.Tag, "img:")
+			os.MkdirAll(fp.Dir(p), 0755)
+			b, _ := hex.DecodeString(o.Val)
+			os.WriteFile(p, b, 0644)
+		}
+	}
+}
+
+func vPredictedInt(tag string) int {
+	for _, o := range vPredicted {
+		if o.Tag == tag {
+			n, _ := strconv.Atoi(o.Val)
+			return n
+		}
+	}
+	return -1
+}
+
+func vSetMsMode(m int) {}
